@@ -35,19 +35,31 @@ def load_plugin(pid: str):
     return importlib.import_module(f"harness.{pid.lower()}").Plugin()
 
 
-def build(pid: str | None, clean=False, depends=()):
+def build(pid: str | None, clean=False, depends=(), gen=None):
     res = C.BuildResult()
     with C.BuildLock():
-        C.regenerate(res)
+        C.regenerate(res, gen)
         C.scan_forbidden(res, None if pid is None else ["Prelude", "Gen", pid, *depends])
         if pid is None:
-            C.make([], res, clean=clean)
+            # setup: build the directories of the properties MANIFEST.json claims (plus what they import)
+            man = json.loads((C.VERIF / "MANIFEST.json").read_text())
+            claimed = sorted({c["property_id"] for c in man.get("checks", [])})
+            targets = []
+            for d in claimed:
+                targets += [str(p.relative_to(C.COQ))[:-2] + ".vo" for p in sorted((C.COQ / "theories" / d).glob("*.v"))]
+            C.make(targets, res, clean=clean)
             return res, True
         run_target = f"theories/{pid}/Run.vo"
         proofs_targets = [str(p.relative_to(C.COQ))[:-2] + ".vo" for p in sorted((C.COQ / "theories" / pid).glob("*.v"))
                           if p.name not in ("Properties.v", "Run.v")]
         if clean:
-            C.sh(["make", "clean"], 120, cwd=C.COQ)
+            # thorough tier: rebuild this property (and the generated tables) from scratch
+            for d in (pid,):
+                for ext in ("vo", "vok", "vos", "glob", "aux"):
+                    for f in (C.COQ / "theories" / d).glob(f"*.{ext}"):
+                        f.unlink()
+                    for f in (C.COQ / "theories" / d).glob(f".*.{ext}"):
+                        f.unlink()
         r2 = C.BuildResult()
         run_ok = C.make([run_target], r2)
         if not run_ok:
@@ -153,7 +165,7 @@ def main():
     if args.replay:
         payload = json.loads(Path(args.replay).read_text())
         case = payload["case"] if "case" in payload else payload
-        res, run_ok = build(pid, depends=getattr(plugin, "DEPENDS", ()))
+        res, run_ok = build(pid, depends=getattr(plugin, "DEPENDS", ()), gen=getattr(plugin, "GEN", None))
         obs = plugin.run_impl(case)
         print("case:", json.dumps(case)[:2000])
         print("implementation observation:", json.dumps(obs, default=str)[:3000])
@@ -163,7 +175,7 @@ def main():
         return 0
 
     rng = random.Random(args.seed)
-    res, run_ok = build(pid, depends=getattr(plugin, "DEPENDS", ()), clean=(tier == "thorough" and os.environ.get("VERIF_NO_CLEAN") != "1"))
+    res, run_ok = build(pid, depends=getattr(plugin, "DEPENDS", ()), gen=getattr(plugin, "GEN", None), clean=(tier == "thorough" and os.environ.get("VERIF_NO_CLEAN") != "1"))
     if res.ok and (not res.theorems or len(res.discharged) != len(res.theorems)):
         res.ok = False
         res.failed_target = "no-theorems" if not res.theorems else "undischarged-theorems"
@@ -312,6 +324,9 @@ def main():
     C.write_evidence(pid, ev)
     for line in out_lines:
         print(line)
+    if os.environ.get("VERIF_DEBUG"):
+        for (c0, o0, d0) in mism_cases[:8]:
+            print("MISMATCH", json.dumps(c0)[:500], "\n   IMPL", json.dumps(o0, default=str)[:500])
     print(f"{pid} {tier}: theorems {len(res.discharged)}/{n_ob} cases {len(obss)} mismatches {len(mism)} "
           f"spec-failures {len(spec)} known {len(known_hit)} -> exit {rc} ({ev['wall_s']}s)")
     return rc
